@@ -339,6 +339,17 @@ def sample(ctx, budget=1.0, hint=None, broken=None):
         s2 = poly(r.randint(1, 5), r.choice([['line'], ['line', 'quad', 'cubic']]), sc)
         if r.random() < 0.4 and len(s1) > 1:
             s1.append(P.Line(s1[-1].end, s1[0].start))
+        tol_kw = {}
+        if r.random() < 0.3:
+            # a frame of exactly axis-parallel lines (zero-width / zero-height boxes) far from the origin, crossed by the other path;
+            # also with a caller-supplied tol below the resolution of the coordinates
+            off = complex(r.choice([0, 1000, 16384, 20000, 100000, 1 << 20]), r.choice([0, 30000, 16384, 1 << 18]))
+            a_, b_ = r.choice([1.0, 2.5, 4.0]) * sc, r.choice([1.0, 1.5, 3.0]) * sc
+            cs_ = [off + complex(-a_, -b_), off + complex(a_, -b_), off + complex(a_, b_), off + complex(-a_, b_)]
+            s1 = [P.Line(cs_[i_], cs_[(i_ + 1) % 4]) for i_ in range(4)]
+            s2 = [sg_.translated(off) for sg_ in s2]
+            if r.random() < 0.5:
+                tol_kw = {'tol': r.choice([1e-15, 1e-14, 1e-13])}
         p1, p2 = P.Path(*s1), P.Path(*s2)
         if r.random() < 0.5:
             p1, p2 = p2, p1
@@ -356,12 +367,12 @@ def sample(ctx, budget=1.0, hint=None, broken=None):
         if not ok:
             n_skip += 1
             continue
-        info = {'path1': repr(p1), 'path2': repr(p2), 'exact_count': len(expected)}
-        rep = 'svgpathtools.%r.intersect(svgpathtools.%r)' % (p1, p2)
+        info = dict({'path1': repr(p1), 'path2': repr(p2), 'exact_count': len(expected)}, **tol_kw)
+        rep = 'svgpathtools.%r.intersect(svgpathtools.%r%s)' % (p1, p2, ''.join(', %s=%r' % kv for kv in tol_kw.items()))
         n_eval += 1
         n_paths += 1
         try:
-            got = p1.intersect(p2)
+            got = p1.intersect(p2, **tol_kw)
         except Exception as e:
             fail('Path.intersect/raises %s' % type(e).__name__, 'Path.intersect raised on paths in general position', info, repr(e)[:200],
                  '%d crossings' % len(expected), rep)
